@@ -171,12 +171,18 @@ def run_moves(job, acc):
             for n in by_path.values():
                 n.path_for()            # asked before the move
             moved = by_path[src]
-            by_path[dst].add_node(('moved',), moved)
+            # re-attached under a single new key, or two levels down (a
+            # _move whose source path has two elements)
+            via = ('moved',) if (len(src) + len(dst)) % 2 == 0 else (
+                'via', 'moved')
+            by_path[dst].add_node(via, moved)
             by_path[src[:-1]]._delete_path((src[-1],))
             now = {}
             for p, n in by_path.items():
-                now[dst + ('moved',) + p[len(src):]
+                now[dst + via + p[len(src):]
                     if p[:len(src)] == src else p] = n
+            if len(via) == 2:
+                now[dst + ('via',)] = by_path[dst].get_path(('via',))
             bad = None
             for p, n in now.items():
                 if n.path_for() != p or root.get_path(n.path_for()) \
@@ -204,6 +210,50 @@ def run_moves(job, acc):
                 return
 
 
+def run_process_node(job, acc):
+    """The path laws from a node that HOLDS A PROCESS: '..' leads to its
+    parent, path_to leads to every other node, path_for leads back."""
+    from vmc import probes
+    _, tree_shape = job
+    tree = number_leaves(tree_shape)
+    node_paths = sorted(nodes(tree))
+    branches = [p for p in node_paths if isinstance(_sub(tree, p), dict)]
+    for home in branches:
+        acc.case(key=('process-node', tree_shape, home))
+        case = {'law': 'process-node', 'tree': tree_shape, 'home': home}
+        root = Store(to_config(tree))
+        proc = probes.Probe({'pid': 'proc', 'log_states': False,
+                             'schema': {'port': {'pv': {'_default': 0}}}})
+        root.generate(home, {'zproc': proc}, {}, {},
+                      {'zproc': {'port': ('zstore',)}}, {})
+        pnode = root.get_path(home + ('zproc',))
+        every = {p: n for p, n in root.depth()}
+        bad = None
+        if pnode.path_for() != home + ('zproc',) or \
+                root.get_path(pnode.path_for()) is not pnode:
+            bad = f'path_for() of the process node = {pnode.path_for()}'
+        elif pnode.get_path(('..',)) is not root.get_path(home):
+            bad = (f"'..' from the process node at {home + ('zproc',)} "
+                   f"reaches {pnode.get_path(('..',)).path_for()}")
+        else:
+            for p, n in every.items():
+                for a, b in ((pnode, n), (n, pnode)):
+                    try:
+                        ok = a.get_path(a.path_to(b)) is b
+                    except Exception:  # noqa
+                        ok = False
+                    if not ok:
+                        bad = (f'{a.path_for()}.path_to({b.path_for()}) = '
+                               f'{a.path_to(b)} does not lead there')
+                        break
+                if bad:
+                    break
+        if bad:
+            acc.violate(fw.violation(
+                'C17.walk', 'process-node-path-law', bad, case))
+            return
+
+
 def _sub(tree, path):
     for k in path:
         tree = tree[k]
@@ -213,6 +263,9 @@ def _sub(tree, path):
 def run_tree(job, acc):
     if job[0] == 'move':
         run_moves(job, acc)
+        return
+    if job[0] == 'process-node':
+        run_process_node(job, acc)
         return
     if job[0] == 'shared':
         run_shared(job, acc)
@@ -485,6 +538,7 @@ def run(ctx):
     jobs += [('shared', t) for t in trees(3) if isinstance(t, dict)]
     jobs += [('move', t) for t in (trees(2) if ctx.quick else trees(3))
              if isinstance(t, dict)]
+    jobs += [('process-node', t) for t in trees(2) if isinstance(t, dict)]
     acc = ctx.map(run_tree, jobs)
     norm_jobs(acc)
     return acc
@@ -494,6 +548,8 @@ def replay(case):
     acc = fw.Acc()
     if case['law'] == 'norm':
         norm_jobs(acc)
+    elif case['law'] == 'process-node':
+        run_process_node(('process-node', case['tree']), acc)
     elif case['law'] == 'move':
         run_moves(('move', case['tree']), acc)
     elif case['law'] == 'enum-shared':
@@ -505,3 +561,6 @@ def replay(case):
 
 RULE += (
     ' Falsy values and None written by assoc_path are read back by get_in with a default. Move law: every subtree re-attached under every other branch (add_node + delete of the source entry) after all nodes were asked for their path - path_for and path_to stay right.')
+
+RULE += (
+    " Deep move: a subtree re-attached below a NEW intermediate branch (('via', 'moved')) - every moved node's path_for()/path_to() names the new place. Process-node law: '..' from a node that holds a Process reaches its parent and the walk continues from there, as for any leaf.")
